@@ -5,10 +5,12 @@ package props
 import (
 	"context"
 	gosql "database/sql"
+	"encoding/json"
 	"fmt"
 	"hash/fnv"
 	"math/rand"
 	"os"
+	"os/exec"
 	"path/filepath"
 	"runtime"
 	"sort"
@@ -22,7 +24,51 @@ import (
 	"verifharness/hx"
 )
 
-func init() { register("C20", "exploration", C20) }
+func init() {
+	register("C20", "exploration", C20)
+	workerMains["c20ref"] = c20RefWorker
+}
+
+// c20RefWorker prints, from a FRESH process, the result signature of every catalogue operation on
+// one file: "the result the operation returns when run alone" must not depend on anything another
+// handle did earlier in the same process.
+func c20RefWorker(args []string) {
+	path := args[0]
+	data, err := os.ReadFile(path)
+	out := map[string]string{}
+	if err == nil {
+		if ops, err := buildOps(data, true, 0); err == nil {
+			if h, closeH, err := openFileHandle(path); err == nil {
+				for _, op := range ops {
+					out[op.name] = resultSig(op.run(h, 0))
+				}
+				closeH()
+			}
+		}
+	}
+	b, _ := json.Marshal(out)
+	fmt.Println(string(b))
+}
+
+func c20Reference(path string) (map[string]string, error) {
+	exe := os.Getenv("VERIF_VRUN")
+	if exe == "" {
+		exe, _ = os.Executable()
+	}
+	outb, err := exec.Command(exe, "worker", "c20ref", path).Output()
+	if err != nil {
+		return nil, err
+	}
+	m := map[string]string{}
+	lines := strings.Split(strings.TrimSpace(string(outb)), "\n")
+	if err := json.Unmarshal([]byte(lines[len(lines)-1]), &m); err != nil {
+		return nil, err
+	}
+	if len(m) == 0 {
+		return nil, fmt.Errorf("empty reference")
+	}
+	return m, nil
+}
 
 func resultSig(r opResult) string {
 	h := fnv.New64a()
@@ -60,12 +106,13 @@ func C20(run *hx.Run) {
 	if o == nil {
 		return
 	}
-	nFiles := 3
+	nFiles := 4
 	var paths []string
 	var catalogs [][]op
 	var seq []map[string]string
 	for i := 0; i < nFiles; i++ {
-		d, err := hx.BuildDB(o, dir, fmt.Sprintf("c%d", i), hx.M{"page_size": []int{512, 4096, 1024}[i], "rows": []int{150, 300, 200}[i], "frag": i == 1}, run.Seed*5+int64(i))
+		// file 3 has the same table names and column lists as the others, but another primary key order in t_wr
+		d, err := hx.BuildDB(o, dir, fmt.Sprintf("c%d", i), hx.M{"page_size": []int{512, 4096, 1024, 1024}[i], "rows": []int{150, 300, 200, 200}[i], "frag": i == 1, "wr_variant": i == 3}, run.Seed*5+int64(i))
 		if err != nil {
 			run.Inconclusive("corpus: " + err.Error())
 			o.Close()
@@ -78,20 +125,19 @@ func C20(run *hx.Run) {
 			o.Close()
 			return
 		}
+		if i == 1 {
+			// a leftover PERSIST journal (header zeroed) next to this file: every read transaction looks at it
+			o.Exec(d.Path, "PRAGMA journal_mode=PERSIST", "UPDATE t_one SET x = 'persist'")
+		}
 		paths = append(paths, d.Path)
 		catalogs = append(catalogs, ops)
-		// sequential reference on a file handle
-		h, closeH, err := openFileHandle(d.Path)
+		// reference: every operation alone, in a fresh process per file
+		m, err := c20Reference(d.Path)
 		if err != nil {
-			run.Violation("C20/open", err.Error(), nil)
+			run.Inconclusive("reference process failed: " + err.Error())
 			o.Close()
 			return
 		}
-		m := map[string]string{}
-		for _, op := range ops {
-			m[op.name] = resultSig(op.run(h, 0))
-		}
-		closeH()
 		seq = append(seq, m)
 	}
 	o.Close()
@@ -187,7 +233,7 @@ func C20(run *hx.Run) {
 					// same file for even goroutines, spread over files for odd ones
 					fi := 0
 					if g%2 == 1 {
-						fi = g % nFiles
+						fi = (g / 2) % nFiles
 					}
 					h, closeH, err := openFileHandle(paths[fi])
 					if err != nil {
